@@ -55,10 +55,12 @@ def struct_runs(bench, variants):
             src = bench.loaded.generated_source(name, v)
             if not src:
                 continue
+            import re as _re
             for line in src.splitlines():
-                if "StructUnpack(\"" in line:
+                if "next_offset = offset +" in line:      # one per struct-coded run of the generated unpack code
                     n += 1
-                    fmts.add(line.split("StructUnpack(\"")[1].split("\"")[0])
+                for m in _re.finditer(r'"([<>][0-9a-zA-Z]+)"', line):
+                    fmts.add(m.group(1))
     return n, fmts
 
 
